@@ -6,7 +6,7 @@ from contracts import bsock as m
 
 def run(ded, repo, tier):
     specs = [dict(module='contracts.bsock', repo=repo, q=q, variant=v, tier=tier, timeout=30 if tier == 'quick' else 120,
-                  clause_of={'*': 'stream_conservation'}) for q, vs in m.FUNCS for v in vs]
+                  clause_of={'*': 'stream_conservation'}, cvc5_first=True) for q, vs in m.FUNCS for v in vs]
     driver.run_parallel(ded, specs)
     ded.trust('socket contract: recv(n) returns a non-empty prefix (<= n bytes) of the undelivered stream, b"" only at end of stream, '
               'or raises socket.timeout without consuming anything; time.time() is arbitrary; locks are not modelled here')
